@@ -1,6 +1,7 @@
 import XzVerif.Proofs.SizeBound
 import XzVerif.Proofs.Writer2Size
 import XzVerif.Proofs.HashTable
+import XzVerif.Proofs.RunCost
 /-
   C17 — Compression is effective on redundancy and never expands data noticeably.
 
@@ -78,5 +79,53 @@ theorem C17_lzma2_no_expansion_hashtable4 (c : W2.Cfg) (hc : W2.CfgOk c) (hdict 
       (ps.map .write) (by intro call hc'; simp only [List.mem_map] at hc'; obtain ⟨p, _, rfl⟩ := hc'; simp) .close)
 
 example : Expansion.sumSz [(65000, 65536, true), (100, 40, false)] = 65003 + 46 := by decide
+
+/-! ### clause 1 — "a run of n equal bytes compresses to at most n/500 bytes" — as a theorem (partial in the constant)
+
+  For the LZMA2 writer model with the HashTable4 model (both tied to the real code), one Write of a run followed by
+  Close: what the match finder proposes inside a run is PROVED (distance 1 over the whole look-ahead, except where the
+  match source would cross the physical end of the ring array — `buffer.matchLen` does not wrap there, a compression
+  inefficiency of the real code that the proof attempt exposed: once per ring revolution a shorter match at another
+  distance is proposed), and the cost of the resulting operations is bounded by an amortised potential over the adaptive
+  probabilities (a 2048-entry weight table checked by kernel evaluation; 44 steady-state contexts adapt for at most 137
+  bytes in total, an expected symbol costs the factor 2048·8192/(2017·8191), any other decision at most 7 bits).
+  **Proved: `≤ n/500 + 251` for every n, every byte value, every valid configuration with a dictionary ≥ 64 KiB.**
+  The property allows 128 bytes per stream: the constant 251 (137 adaptation + 102 for four irregular operations charged
+  crudely + 12 framing) is what keeps this `_partial`; the real writer stays below n/500 + 30 (measured by the size
+  oracle on every run).  Dictionaries below 64 KiB (more frequent ring wraps), the BinaryTree finder and clause 2
+  (X‖X) are measured only. -/
+
+open W2 in
+theorem C17_run_proposal_inside_the_ring (c : Cfg) (hc : CfgOk c) (b : UInt8) (m : HT.St) (hist look : ByteArray) (s : Lzma.St)
+    (hI : HT.Synced c m hist look) (hr0 : s.r0 = 0) (hh : 1 ≤ hist.size) (hl : 1 ≤ look.size)
+    (hsp : look.size + min hist.size c.dictCap ≤ c.dictCap + c.bufSize)
+    (hlast : hist.get! (hist.size - 1) = b) (hall : ∀ i, i < look.size → look.get! i = b)
+    (hphys : hist.size % (c.dictCap + c.bufSize + 1) = 0 ∨
+      hist.size % (c.dictCap + c.bufSize + 1) + min 273 look.size ≤ c.dictCap + c.bufSize + 2) :
+    (HT.HT4.next m hist look s).1 = .mtch 1 (min 273 look.size) :=
+  RunCost.run_proposal' c hc b m hist look s hI hr0 hh hl hsp hlast hall hphys
+
+open W2 in
+theorem C17_run_proposal_at_the_ring_end (c : Cfg) (hc : CfgOk c) (b : UInt8) (m : HT.St) (hist look : ByteArray) (s : Lzma.St)
+    (hI : HT.Synced c m hist look) (hh : 1 ≤ hist.size) (hl : 1 ≤ look.size)
+    (hsp : look.size + min hist.size c.dictCap ≤ c.dictCap + c.bufSize)
+    (hlast : hist.get! (hist.size - 1) = b) (hall : ∀ i, i < look.size → look.get! i = b)
+    (hphys : 1 ≤ hist.size % (c.dictCap + c.bufSize + 1) ∧
+      c.dictCap + c.bufSize + 2 < hist.size % (c.dictCap + c.bufSize + 1) + min 273 look.size) :
+    ∃ dist n, (HT.HT4.next m hist look s).1 = .mtch dist n ∧
+      c.dictCap + c.bufSize + 2 - hist.size % (c.dictCap + c.bufSize + 1) ≤ n :=
+  RunCost.run_proposal_wrap c hc b m hist look s hI hh hl hsp hlast hall hphys
+
+open W2 in
+/-- full statement aimed at: `≤ n / 500 + 128` (the property's allowance per stream) for every valid configuration;
+    proved: -/
+theorem C17_run_compresses_partial (c : Cfg) (hc : CfgOk c) (hd : 65536 ≤ c.dictCap) (b : UInt8) (n : Nat) :
+    (RunCost.lzma2OfRun c b n).size ≤ n / 500 + 251 :=
+  RunCost.run_compresses_partial c hc hd b n
+
+/-- non-vacuity of the ring-end case: the counterexample to "always distance 1" (dictCap 1000, bufSize 273, 1273 bytes
+    of history, a full look-ahead: the proposal is distance 19, length 20) is evaluated in Proofs/RunCost.lean (`#guard`). -/
+example : W2.CfgOk { props := ⟨3, 0, 2⟩, dictCap := 65536, bufSize := 4096 } := by
+  unfold W2.CfgOk Lzma2.PropsOk; decide
 
 end Props.C17
